@@ -181,8 +181,16 @@ def substitute_function(fn) -> int:
                 continue
             # nothing the value reads is re-bound anywhere in the function (the alias itself is the one allowed store)
             clash = False
+            # a free NAME that has exactly one definition, placed before the alias, holds one value for the alias's whole life
+            single_before = set()
+            for f in free:
+                if "." not in f and counts.get(f) == 1 and f not in params:
+                    dst = next((x for x in _own_nodes(fn) if isinstance(x, ast.Assign) and any(isinstance(y, ast.Name) and y.id == f and isinstance(y.ctx, ast.Store)
+                                                                                               for t_ in x.targets for y in ast.walk(t_))), None)
+                    if dst is not None and (dst.lineno, dst.col_offset) < (st.lineno, st.col_offset):
+                        single_before.add(f)
             for s_ in stored:
-                if s_ == name:
+                if s_ == name or s_ in single_before:
                     continue
                 for f in free:
                     if f == s_ or f.startswith(s_ + ".") or s_.startswith(f + "."):
@@ -273,6 +281,43 @@ def _strip_pass(node):
                 setattr(n, attr, kept or [blk[0]])
 
 
+def split_tuple_assignments(fn) -> int:
+    """`a, b = x, y` -> `a = x; b = y` when no right-hand side reads a target assigned before it (then the two are the same program)."""
+    n_split = 0
+    for node in ast.walk(fn):
+        for attr in ("body", "orelse", "finalbody"):
+            blk = getattr(node, attr, None)
+            if not isinstance(blk, list):
+                continue
+            out = []
+            for st in blk:
+                if isinstance(st, ast.Assign) and len(st.targets) == 1 and isinstance(st.targets[0], (ast.Tuple, ast.List)) and isinstance(st.value, (ast.Tuple, ast.List)) \
+                        and len(st.targets[0].elts) == len(st.value.elts) and all(isinstance(t, ast.Name) for t in st.targets[0].elts) \
+                        and not any(isinstance(v, ast.Starred) for v in st.value.elts):
+                    tnames = [t.id for t in st.targets[0].elts]
+                    ok = True
+                    for j, v in enumerate(st.value.elts):
+                        used = {x.id for x in ast.walk(v) if isinstance(x, ast.Name)}
+                        if used & set(tnames[:j]):
+                            ok = False
+                    if ok and len(set(tnames)) == len(tnames):
+                        for t, v in zip(st.targets[0].elts, st.value.elts):
+                            a = ast.Assign(targets=[t], value=v)
+                            ast.copy_location(a, st)
+                            if hasattr(st, "_module"):
+                                a._module = st._module
+                            out.append(a)
+                        n_split += 1
+                        continue
+                out.append(st)
+            setattr(node, attr, out)
+    if n_split:
+        for node in ast.walk(fn):
+            for child in ast.iter_child_nodes(node):
+                child._parent = node
+    return n_split
+
+
 def run(prog) -> int:
     from .inline import relink
 
@@ -280,6 +325,7 @@ def run(prog) -> int:
     for m in prog.modules.values():
         for node in ast.walk(m.tree):
             if isinstance(node, (ast.FunctionDef, ast.AsyncFunctionDef)):
+                split_tuple_assignments(node)
                 total += substitute_function(node)
         relink(m)
     return total
